@@ -57,10 +57,14 @@ def check_case(case, ctx=None, exhaustive=False):
         if exhaustive and config not in ("blocking-executor", "executor-blocking"):
             probe = C8.run_config(config, schemas, req, eff, wj, [], [])
             if probe.tasks <= 6:
-                outs, complete = SR.explore(lambda s: C8.run_config(config, schemas, req, eff, wj, [], s), 800)
-                runs = [o for _, o in outs]
-                if ctx is not None:
-                    ctx.event("exhaustive-operations:" + config if complete else "exhaustive-capped:" + config)
+                for ev in C8.EAGER_VECTORS:
+                    outs, complete = SR.explore(
+                        lambda s: C8.run_config(config, schemas, req, eff, wj, [], {"order": s, "eager": ev}), 800)
+                    runs += [o for _, o in outs]
+                    if ctx is not None:
+                        ctx.event("exhaustive-operations:" + config if complete else "exhaustive-capped:" + config)
+                    if config == "asyncio-inline":
+                        break
         if not runs:
             runs = [C8.run_config(config, schemas, req, eff, wj, [], sch) for sch in schedules]
         for o in runs:
@@ -70,9 +74,9 @@ def check_case(case, ctx=None, exhaustive=False):
                 ctx.event("config:" + config)
                 if len(top) >= 2:
                     ctx.event("runs-with->=2-top-level-fields")
-                ctx.case(key=(req["text"], wj, config, o.choices), nontrivial=nested_first and len(top) >= 2,
+                ctx.case(key=(req["text"], wj, config, o.choices, o.eager), nontrivial=nested_first and len(top) >= 2,
                          sample={"sdl": GS.to_sdl(GS.Spec(case["spec"]), False), "request": req["text"], "variables": req["variables"],
-                                 "world": wj, "config": config, "choices": o.choices, "top_level": top, "timeline": [list(e) for e in o.log[:30]]})
+                                 "world": wj, "config": config, "choices": o.choices, "eager": o.eager, "top_level": top, "timeline": [list(e) for e in o.log[:30]]})
     return vios
 
 
